@@ -55,6 +55,7 @@ void hk_dead_end(void);			/* hk_quiescent returned 0: harness reports + ends the
 void hk_write(int fd, const void *buf, size_t n, long ret, int err, int fl_nonblock);
 void hk_read(int fd, const void *buf, size_t n, long ret, int err);
 void hk_close(int fd);
+void hk_splice(int fdin, int fdout, size_t len, long ret, int err);
 void hk_wait4(pid_t pid_arg, int options, pid_t ret, int status);
 void hk_kill(pid_t pid, int sig, int ret, int err);
 void hk_fork(pid_t ret);
@@ -100,6 +101,8 @@ void vt_activity(void);			/* something changed outside the shim's view: invalida
 extern __thread int vt_in_register_try;
 /* thread-local: this thread is not a participant (helper threads of the harness) */
 extern __thread int vt_nonparticipant;
+/* thread-local: no schedule perturbation in this thread for now (long bursts) */
+extern __thread int vt_no_perturb;
 
 /* fault plans: "call:ERRNO@k[+],..."  e.g. "wait:EINTR@3,epoll_pwait2:ENOSYS@1+" */
 int  vt_fault_plan(const char *plan);	/* returns number of entries parsed, -1 on error */
